@@ -28,6 +28,7 @@ REQUIRED = {
     "single_updates_checked": 500, "other_entries_bitwise_checks": 500,
     "mc_entries_checked": 50, "model_rows_checked": 50,
     "in_loop_updates_checked": 100, "planning_updates_checked": 10,
+    "in_loop_update_inputs_checked": 100, "in_loop_updates_on_truncated_steps": 5,
 }
 TIMEOUT = {"quick": 1200, "thorough": 7000}
 ASSUMPTIONS = [
@@ -314,6 +315,31 @@ def run_model(case):
 
 
 # --------------------------------------------------------------- in-loop
+def check_inputs(res, algo, steps, n, s, ac, rew, s2, term):
+    """The update made after environment step n is an update for that step:
+    its (s, a, r, s', terminated) are what the environment produced there -
+    in particular a truncated step is not a terminated one."""
+    if not 1 <= n <= len(steps):
+        res.violation(f"C14/loop/update_inputs/{algo}",
+                      f"update recorded after {n} environment steps of {len(steps)}")
+        return False
+    st = steps[n - 1]
+    got = (s, ac, round(rew, 5), s2)
+    want = (int(st["prev"]), int(st["action"]), round(float(st["reward"]), 5),
+            int(st["obs"]))
+    if got != want or (term is not None and term != bool(st["terminated"])):
+        res.violation(
+            f"C14/loop/update_inputs/{algo}",
+            f"in train_{algo}: the update after env step {n} used (s, a, r, s', "
+            f"terminated) = {got + (term,)}, the environment produced "
+            f"{want + (bool(st['terminated']),)} (truncated={st['truncated']})")
+        return False
+    res.see("in_loop_update_inputs_checked")
+    if st["truncated"]:
+        res.see("in_loop_updates_on_truncated_steps")
+    return True
+
+
 def run_loop(case):
     res = Result()
     import importlib
@@ -417,6 +443,9 @@ def run_loop(case):
             s, ac, rew, s2 = (int(a["obs"]), int(a["act"]), float(a["reward"]),
                               int(a["next_obs"]))
             q_old, q_new = a["q_table"], np.asarray(r["out"])
+            if not r["planning"] and not check_inputs(res, algo, steps, r["n"], s, ac,
+                                                      rew, s2, None):
+                return res
             tg = targets_for("dynaq", q_old, None, rew, gamma, False, s2)
             if not check_update(res, "dynaq", q_old, q_new, s, ac, tg, lr,
                                 f"in train_dynaq ({'planning' if r['planning'] else 'real'})"):
@@ -450,6 +479,8 @@ def run_loop(case):
         term = bool(a["terminated"])
         s, ac = int(a["observation"]), int(a["action"])
         s2, rew = int(a["next_observation"]), float(a["reward"])
+        if not check_inputs(res, algo, steps, r["n"], s, ac, rew, s2, term):
+            return res
         if algo == "double_q_learning":
             q_old, q2 = a["q_table1"], a["q_table2"]
             a2 = None
